@@ -15,7 +15,9 @@ to its dynamic value, from a slice/array/map/struct to its elements.  The traver
   the clause was absent — `trackPtrLike := false` reproduces the old traversal);
   struct, array and interface arshalers never consult it;
 * an empty (or nil) slice/map is written by the `[]`/`{}` shortcut without WriteToken — since repo
-  commit c2b1a73 only when `!Tokens.AtMaxDepth()` (`guardEmpty := false` reproduces the old shortcut).
+  commit c2b1a73 only when `!Tokens.AtMaxDepth()`.  Which kinds have such a shortcut and whether it
+  carries the guard are parameters (`shortcut`, `guarded`): `guarded := fun _ => false` reproduces the
+  old code, `shortcut := fun k => k = .struct || …` a fast path for member-less structs.
 
 `pointsToPointerLike` is a property of the static type `*T`; in the graph it is read off the target
 node (a value of type `T` is a pointer node iff `T` is a pointer type, an interface node iff `T` is an
@@ -63,8 +65,11 @@ structure Cfg where
   max : Nat                    -- maxNestingDepth
   after : Nat                  -- startDetectingCyclesAfter
   trackPtrLike : Bool := true  -- the `|| pointsToPointerLike` clause of makePointerArshaler
-  guardEmpty : Bool := true    -- the `&& !xe.Tokens.AtMaxDepth()` clause of the `[]`/`{}` shortcuts
-deriving Repr
+  /-- which kinds write an EMPTY value by appending `[]`/`{}` to the buffer without WriteToken
+  (the source: slices and maps; structs, arrays always go through WriteToken) -/
+  shortcut : Kind → Bool := fun k => k = .slice || k = .map
+  /-- does that shortcut carry the `&& !xe.Tokens.AtMaxDepth()` clause (the source since c2b1a73: all of them) -/
+  guarded : Kind → Bool := fun _ => true
 
 def kindOf (g : Heap) (n : Nat) : Option Kind := (g[n]?).map (·.kind)
 
@@ -101,7 +106,7 @@ def marshal (cfg : Cfg) (g : Heap) : Nat → Nat → List Nat → Nat → Res
         if nd.kind = .scalar then .ok
         else if nd.kind.deepens then
           -- `[]` / `{}` shortcut for empty slices and maps: no token, hence no depth test of its own
-          if (nd.kind = .slice ∨ nd.kind = .map) ∧ nd.succ = [] ∧ ¬ (cfg.guardEmpty ∧ depth = cfg.max + 1) then .ok
+          if cfg.shortcut nd.kind ∧ nd.succ = [] ∧ ¬ (cfg.guarded nd.kind ∧ depth = cfg.max + 1) then .ok
           -- WriteToken(BeginArray/BeginObject): errMaxDepth iff len(Stack) == max
           else if depth = cfg.max + 1 then .maxDepth
           else seqRes (fun c => marshal cfg g fuel (depth + 1) seen' c) nd.succ
